@@ -347,4 +347,25 @@ PROPS = {
         level_note="Safety only; termination and timing are not decided.",
         explanation="contracts of stop(), the stopping guards and the flush branch.",
     ),
+    "C19": dict(
+        specs=["packer", "avp", "avp_types", "avp_grouped", "base", "node_model", "peer", "helpers", "c20", "family", "node", "c13", "c19"],
+        ground=[], replay=replay.generic,
+        trusted_base=["socket / thread environment models; PeerConnection.__init__ starts two workers (assumed constructor contract)"],
+        assumptions=COMMON_ASSUME + [
+            "the quantitative N vs 10N comparison is a corollary of the per-call balance postconditions and is not executed",
+            "NOT DECIDED: statistics windows (PeerStats) and the clause that a dial attempt failing synchronously releases its "
+            "connection object - the obligation was refuted on the original tree (worker threads and socket leaked; repaired by "
+            "a fix commit) but is not discharged mechanically on the repaired tree (weak composite contract), so it is not claimed",
+            "handlers are serialized (S5)"],
+        level_text="Deductive proof of release postconditions on the real code: every answer sent releases the pending hop-by-hop "
+                   "entry and the origin record of its request (send_message/_record_answer); route_answer consumes the pending "
+                   "entry; a received answer releases its hop-by-hop:end-to-end correlation entry and creates no origin record; "
+                   "send_request removes its waiter on every exit; remove_peer_connection/close_connection_socket remove the "
+                   "connection from every table, drop its pending-answer table, close its socket and stop both workers; a "
+                   "refused connection (node stopping / peer already connected) is closed and its workers stopped without any "
+                   "table entry; the retransmission window is bounded by its maxlen.",
+        level_note="Per-call balance contracts for all table states; counts over histories follow by induction on the history, "
+                   "which is not mechanised.",
+        explanation="release postconditions per function.",
+    ),
 }
